@@ -395,6 +395,7 @@ Qed.
 (* d h n = the shared data / head / count; only the AsSlice clauses depend on them *)
 Definition thr_ok (d : list Z) (h n : Z) (th : abq_thr) : Prop :=
   match t_pc th with
+  | EPark | DPark => t_lin th = [] /\ t_can th = false      (* a cancelled waiter does not stay parked *)
   | ERetErr | DRetErr => t_err th = true /\ t_lin th = []
   | ERelE | ERetCtx | DRelD | DRetCtx => t_can th = true /\ t_lin th = []
   | ETailInc | ECountInc | EIfTail | ETailZero | ERelD | ERetNil
